@@ -62,6 +62,20 @@ def fpool(fmt, rng, n):
     return vals
 
 
+def boundary_pool(fmt):
+    """Exact float->int trapping boundaries with their neighbours one ulp away (both signs)."""
+    tob = f32bits if fmt == "f32" else f64bits
+    bits = 32 if fmt == "f32" else 64
+    sign = 1 << (bits - 1)
+    out = []
+    for x in (1.0, 0.5, 0.99999994, 2147483647.0, 2147483648.0, 2147483649.0, 4294967295.0, 4294967296.0, 4294967297.0,
+              9223372036854775807.0, 9223372036854775808.0, 18446744073709551615.0, 18446744073709551616.0, 2147483648.5, 4294967295.5):
+        b = tob(x)
+        for d in (-2, -1, 0, 1, 2):
+            out += [b + d, (b + d) | sign]
+    return list(dict.fromkeys(v & ((1 << bits) - 1) for v in out))
+
+
 def ipool(bits, rng, n):
     M = (1 << bits) - 1
     vals = [0, 1, M, 1 << (bits - 1), (1 << (bits - 1)) - 1, (1 << (bits - 1)) + 1]
@@ -76,11 +90,27 @@ def ipool(bits, rng, n):
     return vals[:max(n, 12)]
 
 
+def tie_pool(bits, tier):
+    """Integer sources around the rounding points of int -> float conversions: for every position e of the leading
+    bit and both target precisions p (24, 53): exact ties (even and odd neighbour), one above, one below."""
+    out = []
+    for p in (24, 53):
+        es = [e for e in range(p, bits)]
+        if tier == "quick":
+            es = [e for e in es if e in (p, p + 1, 30, 31, 32, 40, 61, 62, 63) or e == bits - 1]
+        for e in es:
+            half = 1 << (e - p)
+            for k in (half, half + 1, half - 1 if half > 1 else 0, 3 * half, 3 * half + 1, 2 * half + half - 1 if half > 1 else 0):
+                x = (1 << e) + k
+                out += [x, (-x) & ((1 << bits) - 1), x | (1 << (bits - 1))]
+    return list(dict.fromkeys(v & ((1 << bits) - 1) for v in out))
+
+
 def val(t, v):
     return {"t": t, "b": b32(v) if t in ("i32", "f32") else b64(v)}
 
 
-def grid_items(rng, npool, nbin, rot):
+def grid_items(rng, npool, nbin, rot, tier="quick"):
     from wasm_encode import OPS
     items = []
     P = {"f32": fpool("f32", rng, npool), "f64": fpool("f64", rng, npool), "i32": ipool(32, rng, npool), "i64": ipool(64, rng, npool)}
@@ -128,7 +158,9 @@ def grid_items(rng, npool, nbin, rot):
         name = op.replace(".", "_")
         funcs.append({"type": types.index(t), "locals": [], "body": [["local.get", 0], [op], ["end"]]})
         exports.append({"name": name, "kind": "func", "idx": len(funcs) - 1})
-        calls += [{"op": "call", "inst": 1, "export": name, "args": [val(fr, a)]} for a in P[fr]]
+        src = P[fr] + (boundary_pool(fr) if fr in ("f32", "f64") and "trunc" in op else []) + \
+            (tie_pool(32 if fr == "i32" else 64, tier) if fr in ("i32", "i64") and "convert" in op else [])
+        calls += [{"op": "call", "inst": 1, "export": name, "args": [val(fr, a)]} for a in dict.fromkeys(src)]
     mod = {"types": types, "funcs": funcs, "exports": exports}
     for j in range(0, len(calls), 500):
         items.append({"id": "gcvt_%d" % (j // 500), "module": mod, "script": [INST] + calls[j:j + 500]})
@@ -169,7 +201,7 @@ def main():
     rng = random.Random(SEED)
     v = Verdict("C02", tier)
     nvec, vs, vt = selfcheck(tier)
-    items, P = grid_items(rng, 40 if tier == "quick" else 90, 22 if tier == "quick" else 60, (SEED % 2) if tier == "quick" else None)
+    items, P = grid_items(rng, 40 if tier == "quick" else 90, 22 if tier == "quick" else 60, (SEED % 2) if tier == "quick" else None, tier)
     gst = {}
     items += wasmgen.programs("float", 120 if tier == "quick" else 2500, SEED, args_per_prog=5, stats=gst)
     builds = [{"name": "gcc-O1", "cc": "gcc", "cflags": ("-O1",)}, {"name": "clang-O2", "cc": "clang", "cflags": ("-O2",)}]
